@@ -97,14 +97,15 @@ theorem findKey_okByte (hT : T.WF) (enc : Enc) (mode : KeyMode) (b0 : Nat) (r : 
 /-! ### input made of recognised sequences and validly encoded characters, at byte level -/
 
 /-- utf-8: a concatenation of strictly valid characters (every multi-byte table sequence is ASCII, hence such a
-    concatenation) and of single-byte 8-bit table keys that are NOT UTF-8 lead bytes (80..BF, FE, FF: the decoder
-    reports those at once, `metaCollision` does not apply to them), optionally ended by ONE single-byte table key
-    of any value (the lead-byte-valued Meta keys C0..FD count as recognised only when they end a read) -/
+    concatenation) and of single-byte 8-bit table keys that are NOT UTF-8 lead bytes (RFC 3629 lead bytes are
+    C2..F4; so 80..C1 and F5..FF qualify), optionally ended by ONE single-byte table key of any value (the
+    lead-byte-valued Meta keys C2..F4 count as recognised only when they end a read: the property's parenthesis).
+    The code treats C0, C1, F5..FD like lead bytes too: known finding D43 (`isD43Byte`). -/
 inductive RecUtf8 (T : KeyTables) : List Nat → Prop
   | nil : RecUtf8 T []
   | last (b : Nat) : T.isKey [b] = true → RecUtf8 T [b]
   | char (p r : List Nat) : Shape p → RecUtf8 T r → RecUtf8 T (p ++ r)
-  | key8 (b : Nat) (r : List Nat) : T.isKey [b] = true → 128 ≤ b → ¬ (0xC0 ≤ b ∧ b ≤ 0xFD) → RecUtf8 T r →
+  | key8 (b : Nat) (r : List Nat) : T.isKey [b] = true → 128 ≤ b → ¬ (0xC2 ≤ b ∧ b ≤ 0xF4) → RecUtf8 T r →
       RecUtf8 T (b :: r)
 
 /-- ascii: ASCII characters and single-byte table keys (multi-byte table sequences are ASCII);
@@ -133,6 +134,26 @@ def runNoD12 (T : KeyTables) (enc : Enc) (mode : KeyMode) : Nat → List Nat →
   | n + 1, buf => headNoD12 T buf ∧
       ∀ k c r, findKey T enc mode buf = .ok (some (k, c, r)) → runNoD12 T enc mode n r
 
+/-- the 11 byte values the code's `could_be_unfinished_utf8` takes for lead bytes although no UTF-8 character
+    starts with them (C0, C1: overlong; F5..FD: beyond U+10FFFF / 5- and 6-byte forms): footprint of D43 -/
+def isD43Byte (b : Nat) : Prop := b = 0xC0 ∨ b = 0xC1 ∨ (0xF5 ≤ b ∧ b ≤ 0xFD)
+
+instance (b : Nat) : Decidable (isD43Byte b) := by unfold isD43Byte; exact inferInstance
+
+/-- complement of D43's footprint for one `find_key()` call (utf-8): the buffer does not start with one of those
+    bytes followed by another byte -/
+def headNoD43 (buf : List Nat) : Prop := ∀ b r, buf = b :: r → r ≠ [] → ¬ isD43Byte b
+
+/-- ... over a whole run -/
+def runNoD43 (T : KeyTables) (enc : Enc) (mode : KeyMode) : Nat → List Nat → Prop
+  | 0, _ => True
+  | n + 1, buf => headNoD43 buf ∧
+      ∀ k c r, findKey T enc mode buf = .ok (some (k, c, r)) → runNoD43 T enc mode n r
+
+/-- static form: nowhere in the buffer is such a byte followed by another byte (exact on `Recognised` input,
+    where bytes >= C0 only occur as the first byte of a character or as a one-byte key) -/
+def noD43 (buf : List Nat) : Prop := ∀ a b c, buf = a ++ b :: c → c ≠ [] → ¬ isD43Byte b
+
 theorem recUtf8_tail (l : List Nat) (h : RecUtf8 T l) : ∀ b rest, l = b :: rest → b < 128 → RecUtf8 T rest := by
   intro b rest he hb
   cases h with
@@ -160,7 +181,8 @@ theorem noD12_suffix {c r : List Nat} (h : noD12 T (c ++ r)) : noD12 T r := by
 /-- One `find_key()` on non-empty recognised input outside D12's footprint: it returns a key, and what is left
     is again recognised input. -/
 theorem findKey_recognised (hT : T.WF) (enc : Enc) (mode : KeyMode) (buf : List Nat) (hne : buf ≠ [])
-    (hrec : Recognised T enc buf) (hno : enc = .latin1 ∨ headNoD12 T buf) :
+    (hrec : Recognised T enc buf) (hno : enc = .latin1 ∨ headNoD12 T buf)
+    (hd43 : enc = .utf8 → headNoD43 buf) :
     ∃ k c r, findKey T enc mode buf = .ok (some (k, c, r)) ∧ Recognised T enc r := by
   have single : ∀ b r, T.isKey [b] = true → (r = [] ∨ ([b] ∉ T.prefixes ∧ couldBeUnfinishedChar [b] enc = false)) →
       ∃ k, findKey T enc mode (b :: r) = .ok (some (k, [b], r)) := by
@@ -185,13 +207,20 @@ theorem findKey_recognised (hT : T.WF) (enc : Enc) (mode : KeyMode) (buf : List 
       obtain ⟨k, h⟩ := single b [] hk (Or.inl rfl)
       exact ⟨k, [b], [], h, .nil⟩
     | key8 b r hk h128 hlead hr =>
-      obtain ⟨k, h⟩ := single b r hk (Or.inr ⟨by
-        intro hmem
-        have := (hT.prefix_len hmem).2
-        simp at this; omega, unfinished_isKey hT hk .utf8 (by
-          rintro ⟨_, b', hb', h1, h2⟩
-          simp at hb'; subst hb'; exact hlead ⟨h1, h2⟩)⟩)
-      exact ⟨k, [b], r, h, hr⟩
+      by_cases hr0 : r = []
+      · subst hr0
+        obtain ⟨k, h⟩ := single b [] hk (Or.inl rfl)
+        exact ⟨k, [b], [], h, .nil⟩
+      · have hnd : ¬ isD43Byte b := hd43 rfl b r rfl hr0
+        obtain ⟨k, h⟩ := single b r hk (Or.inr ⟨by
+          intro hmem
+          have := (hT.prefix_len hmem).2
+          simp at this; omega, unfinished_isKey hT hk .utf8 (by
+            rintro ⟨_, b', hb', h1, h2⟩
+            simp at hb'; subst hb'
+            unfold isD43Byte at hnd
+            omega)⟩)
+        exact ⟨k, [b], r, h, hr⟩
     | char p r hp hr =>
       by_cases h2 : 2 ≤ p.length
       · have hnk : T.isKey p = false := by
@@ -255,6 +284,22 @@ theorem runNoD12_of_noD12 (enc : Enc) (mode : KeyMode) (n : Nat) : ∀ buf, noD1
     have := (findKeyLoop_lossless enc mode [] buf k c r hf).1
     apply ih r
     apply noD12_suffix (c := c)
+    rw [this]; simpa using h
+
+theorem noD43_suffix {c r : List Nat} (h : noD43 (c ++ r)) : noD43 r := by
+  intro a b c' he hc
+  exact h (c ++ a) b c' (by simp [he]) hc
+
+theorem runNoD43_of_noD43 (enc : Enc) (mode : KeyMode) (n : Nat) : ∀ buf, noD43 buf → runNoD43 T enc mode n buf := by
+  induction n with
+  | zero => intro _ _; trivial
+  | succ n ih =>
+    intro buf h
+    refine ⟨fun b r he hr => h [] b r (by simpa using he) hr, ?_⟩
+    intro k c r hf
+    have := (findKeyLoop_lossless enc mode [] buf k c r hf).1
+    apply ih r
+    apply noD43_suffix (c := c)
     rw [this]; simpa using h
 
 end Curtsies
